@@ -90,7 +90,9 @@ impl TryFrom<SignedDuration> for Duration {
     #[verifier::external_body] fn try_from(d: SignedDuration) -> (r: Result<Self, TryFromSignedError>) { unimplemented!() }
 }
 impl Duration {
-    #[verifier::external_body] pub fn from_millis(ms: u64) -> (r: Duration) ensures r.ns == ms * 1_000_000 { unimplemented!() }
+    /// `const fn`, as in std (it may initialise a constant); beyond the stand-in's 64-bit nanoseconds nothing is promised
+    pub const fn from_millis(ms: u64) -> (r: Duration) ensures ms * 1_000_000 <= u64::MAX ==> r.ns == ms * 1_000_000
+    { Duration { ns: if ms <= u64::MAX / 1_000_000 { ms * 1_000_000 } else { u64::MAX } } }
 }
 #[verifier::allow(undeclared_external_trait)]
 pub assume_specification<T, E>[Result::<T, E>::unwrap_or](res: Result<T, E>, default: T) -> (r: T)
